@@ -7,6 +7,8 @@ import Driver.Query
 import Driver.Stmts
 import Driver.Fuzz
 import Driver.Memo
+import Driver.Conc
+import Driver.Text
 
 def main (args : List String) : IO UInt32 := do
   match args with
@@ -19,6 +21,8 @@ def main (args : List String) : IO UInt32 := do
   | ["stmts"] => Driver.Stmts.main; return 0
   | ["fuzz"] => Driver.Fuzz.main; return 0
   | ["memo"] => Driver.Memo.main; return 0
+  | ["conc"] => Driver.Conc.main; return 0
+  | ["text"] => Driver.Text.main; return 0
   | _ =>
     IO.eprintln "usage: bwdriver <protocol>"
     return 2
